@@ -235,7 +235,7 @@ namespace occa {
           ->
           for (NULL; NULL; x += INC)
           ->
-          for (x = xTile; x < (xTile + TILE); x += INC)
+          for (x = xTile; x < (xTile + (TILE * (INC))); x += INC)
         */
         auto &blockDecls = ((declarationStatement*) blockForSmnt.init)->declarations;
         token_t *declVarSource = blockDecls[0].variable().source;
@@ -254,7 +254,6 @@ namespace occa {
 
         expr blockIterator(declVarSource, blockIter);
         expr iterator(*oklForSmnt.iterator);
-        expr tileSizeExpr = &tileSize;
 
         initDecls.push_back(
           variableDeclaration(*oklForSmnt.iterator,
@@ -264,10 +263,12 @@ namespace occa {
         // Create check statement
         // Note: At this point, the tile for-loop has an update
         //       with either an [+=] or [-=] update operator
+        //       whose right-hand side is what a block covers: TILE or ((TILE) * (INC))
+        expr blockSize = expr::parens(expr(updateExpr.rightValue));
         expr bounds = expr::parens(
           (updateExpr.opType() & operatorType::addEq)
-          ? blockIterator + tileSizeExpr
-          : blockIterator - tileSizeExpr
+          ? blockIterator + blockSize
+          : blockIterator - blockSize
         );
 
         const binaryOperator_t &checkOp = (const binaryOperator_t&) checkExpr.op;
